@@ -244,7 +244,8 @@ func (s *Sched) reschedule() {
 			return
 		}
 		meEnabled := me != nil && s.isEnabled(me)
-		if meEnabled && me.pend.kind != KSettle && s.cfg.Filter != nil && !s.cfg.Filter(me.pend.kind, me.pend.obj) {
+		if meEnabled && me.pend.kind != KSettle && s.cfg.Filter != nil && !s.cfg.Filter(me.pend.kind, me.pend.obj) && s.consec <= s.cfg.SpinLimit {
+			s.consec++
 			s.record(me)
 			return
 		}
